@@ -4,8 +4,16 @@ from .progfam import *
 
 def run(tier, seed):
     return run_prog_property(
-        "C14", ["compile"], tier, seed,
-        rule="Every program of the family is compiled with and without debug symbols and run on every witness assignment: "
-             "both builds must give the verdict the source semantics prescribes (model invariant DebugNeutral: the wrapper "
-             "`(false, args); assertl (drop body) marker` always takes the left branch).",
-        assumptions=BASE_ASSUMPTIONS)
+        "C14", ["debug", "compile", "fold", "forwhile"], tier, seed,
+        expand=lambda cs: layout_variants(cs, ("debug",), [" ", "tight", "\n", "\t "]),
+        rule="(1) Behaviour neutrality: every program of the families is compiled with and without debug symbols and run on every "
+             "witness assignment; both builds must give the verdict of the source semantics (model invariant DebugNeutral). "
+             "(2) Markers: MC_Debug.tla places 16 tracked calls (dbg! of variable / literal / tuple / call / block / nested dbg!, "
+             "unwrap, unwrap_left/right, assert!, panic!, jets) in main, in a function called twice, in a never-called function, "
+             "in a match arm, in a fold body and in a for_while body, each rendered in four layouts (spaces, no optional white "
+             "space, one token per line, tabs). The spec predicts the call sites that are part of the compiled program "
+             "(ReachableSites) with text, kind and sample input values. The harness recomputes the marker CMRs "
+             "SHA256(tag||tag||be32(i)), finds them in the debug build's assertl nodes, and requires: every marker resolves "
+             "through debug_symbols() to the white-space-normalised text and kind of exactly one predicted site, every predicted "
+             "site has a marker, a plain build has none, and TrackedCall::map_value reconstructs the sample values.",
+        assumptions=BASE_ASSUMPTIONS + ["run-time marker values are taken from the model: simplicity-lang 0.4.0 has no execution tracker"])
